@@ -678,6 +678,70 @@ example :
       = some (.metric ⟨[.u 7], [110], [([107], [118]), ([97], [98])], some .high⟩) := by
   decide
 
+/-! ### Long-lived adapters are history independent -/
+
+theorem applyAll_cons (w : Wrapper) (ws : List Wrapper) (e : Ent) :
+    applyAll (w :: ws) e = applyAll ws (w.apply e) := rfl
+
+theorem stackNext_eq (as : List Adapter) (r : RecStream) (e : Ent) :
+    stackNext as r e
+      = (as, (r.next (applyAll (as.map Adapter.toWrapper) e)).1,
+             (r.next (applyAll (as.map Adapter.toWrapper) e)).2) := by
+  induction as generalizing e with
+  | nil => rfl
+  | cons a rest ih =>
+    rw [List.map_cons, applyAll_cons]
+    cases a with
+    | mergeGlobals g => simp only [stackNext, Adapter.call, ih]; rfl
+    | globalDims d deny =>
+      by_cases h : d.isEmpty = true
+      · simp only [stackNext, Adapter.call, h, if_true, ih, Adapter.toWrapper, Wrapper.apply]
+      · simp only [stackNext, Adapter.call, h, ih, Adapter.toWrapper, Wrapper.apply]
+        rfl
+    | forceFlag f => simp only [stackNext, Adapter.call, ih]; rfl
+
+/-- what the stateless specification says the recording stream sees of entry `e` under adapters `as` -/
+def adapterSpec (as : List Adapter) (e : Ent) : Log × Dims :=
+  (specLogAll (as.map Adapter.toWrapper) e.log, specSGAll (as.map Adapter.toWrapper) e.sampleGroup)
+
+theorem runSeq_eq (as : List Adapter) (r : RecStream) (es : List Ent) :
+    runSeq as r es
+      = (as, { seen := r.seen ++ es.map (adapterSpec as), script := r.script.drop es.length },
+         scriptResults es.length r.script) := by
+  induction es generalizing r with
+  | nil => simp [runSeq, scriptResults]
+  | cons e es ih =>
+    simp only [runSeq, stackNext_eq, ih, RecStream.next, List.map_cons, List.length_cons, scriptResults,
+      adapterSpec, c15_compose_log, c15_compose_sample_group]
+    simp [List.append_assoc]
+
+/-- **C15 for long-lived adapters (history independence).** For every stack of stream / format
+adapters (`MergeGlobals`, `MergeGlobalDimensions` incl. its empty-dimension shortcut, `ForceFlag`
+stream, nested in any order), every sequence of entries pushed through the SAME instance and every
+script of results (`Ok` / `Validation` / `Io`) of the stream below: the adapters' fields are unchanged
+at the end, the `i`-th entry reaches the stream below exactly as the stateless specification says —
+independently of every earlier entry and of every earlier result — and the results are passed up
+unchanged. -/
+theorem c15_adapters_history_independent (as : List Adapter) (script : List IoRes) (es : List Ent) :
+    (runSeq as ⟨[], script⟩ es).1 = as ∧
+    (runSeq as ⟨[], script⟩ es).2.1.seen = es.map (adapterSpec as) ∧
+    (∀ i : Nat, (runSeq as ⟨[], script⟩ es).2.1.seen[i]? = es[i]?.map (adapterSpec as)) ∧
+    (runSeq as ⟨[], script⟩ es).2.2 = scriptResults es.length script := by
+  rw [runSeq_eq]
+  refine ⟨rfl, by simp, fun i => by simp, rfl⟩
+
+/-- Non-vacuity: `MergeGlobalDimensions` (outermost) over `MergeGlobals`; the first entry is rejected
+with a validation error, the second with an io error; the third still gets globals and dimensions. -/
+example :
+    let m : VCall := .metric ⟨[.u 1], [110], [], none⟩
+    let e : Ent := .base [.value [65] (.leaf (some m))] []
+    (runSeq [.globalDims [([99], [100])] [], .mergeGlobals exGlobals] ⟨[], [.validation, .io]⟩ [e, e, e]).2.1.seen[2]?
+      = some ([.val [90] (some (.string [122])),
+               .val [65] (some (.metric ⟨[.u 1], [110], [([99], [100])], none⟩))], [([113], [114])]) ∧
+    (runSeq [.globalDims [([99], [100])] [], .mergeGlobals exGlobals] ⟨[], [.validation, .io]⟩ [e, e, e]).2.2
+      = [.validation, .io, .ok] := by
+  decide
+
 end Wrappers
 
 #print axioms Wrappers.c15_value_transparent
@@ -699,3 +763,4 @@ end Wrappers
 #print axioms Wrappers.c15_compose_sample_group
 #print axioms Wrappers.c15_value_compose
 #print axioms Wrappers.c15_transformers_keep_skeleton
+#print axioms Wrappers.c15_adapters_history_independent
